@@ -1141,22 +1141,35 @@ def _abstract_strip(E, s, left, right):
     return VSeq(s.kind, z3.simplify(b - a), lambda i, s=s, a=a: s.at(z3.simplify(a + I(i))))
 
 
+def _concrete_strip(a, name):
+    """exact result when the operand (and the optional character set) are concrete"""
+    cs = conc_str(a[0])
+    if cs is None:
+        return None
+    if len(a) == 1 or a[1] is NONE:
+        return lift(getattr(cs, name)())
+    cc = conc_str(a[1]) if isinstance(a[1], VSeq) else None
+    if cc is None:
+        return None
+    return lift(getattr(cs, name)(cc))
+
+
 @method(('str', 'bytes'), 'strip')
 def m_strip(E, a, kw):
-    cs = conc_str(a[0])
-    if cs is not None and len(a) == 1:
-        return lift(cs.strip())
-    return _abstract_strip(E, a[0], True, True)
+    r = _concrete_strip(a, 'strip')
+    return r if r is not None else _abstract_strip(E, a[0], True, True)
 
 
 @method(('str', 'bytes'), 'lstrip')
 def m_lstrip(E, a, kw):
-    return _abstract_strip(E, a[0], True, False)
+    r = _concrete_strip(a, 'lstrip')
+    return r if r is not None else _abstract_strip(E, a[0], True, False)
 
 
 @method('bytes', 'rstrip')
 def m_brstrip(E, a, kw):
-    return _abstract_strip(E, a[0], False, True)
+    r = _concrete_strip(a, 'rstrip')
+    return r if r is not None else _abstract_strip(E, a[0], False, True)
 
 
 @model('id')
